@@ -10,12 +10,13 @@ EXPLANATION = ("proved: SatCacheMixin._add / unsat_core keep the cached core a t
 TECHNIQUE = "mixin-in-isolation proof of the core invariant + bounded run-time contracts"
 RULE = _rtc.RTC_RULE
 FUNCTIONS = ["SatCacheMixin._add", "SatCacheMixin.unsat_core", "SatCacheMixin.simplify", "BackendZ3.add (tracked term table)"]
-TRUSTED = _rtc.RTC_TRUSTED + ["Z3's unsat cores; tracking names hash(constraint) do not collide"]
-ASSUMPTIONS = ["BackendZ3._add(track=True)/_unsat_core (assert_and_track names, reading the core back) are only checked in the bounded part"]
+TRUSTED = _rtc.RTC_TRUSTED + ["Z3's unsat cores; ghost solver: assert_and_track / assertions / unsat_core as documented by Z3; a live Z3 term's address identifies it"]
+ASSUMPTIONS = ["BackendZ3._add(track=True)/_unsat_core are proved over a ghost solver in which the 32-bit hashes of different terms may coincide (z3solve.BackendZ3._add[track]...)"]
 
 
 def tasks(tier, seed=0):
     M = "vf.contracts.mixins"
     out = [task(M, "ob_satcache", f"mixin.SatCacheMixin.{m}/spec+inv", ["C11", "C16"], method=m, tier=tier) for m in ("_add", "unsat_core", "simplify")]
+    out.append(task("vf.contracts.z3solve", "ob_tracked_assertions", "z3solve.BackendZ3._add[track]+_unsat_core/every-constraint-asserted", ["C16", "C11"], tier=tier))
     out.append(task("vf.contracts.z3solve", "ob_tracked_add", "z3solve.BackendZ3.add/tracked-term-maps-to-the-added-constraint", ["C16"], tier=tier))
     return out + _rtc.rtc_tasks("C16", tier, seed)
